@@ -75,6 +75,13 @@ CHECKS.update({
             "TLC trace validation of write/apply events from the shim-world simulation against DataPlane", "7 C23"),
 })
 
+CHECKS.update({
+    "C11": ("exploration", "Semantic half only: TLC enumerates the damage cases of spec WalrusDamage (class x locus over WAL units, entry headers byte by byte, payloads, truncation points, index/marker files, stray files); "
+            "each applicable case is applied to copies of directories produced by the real engine (3 workloads x fd/mmap) and opened in a fresh process that drains every topic; oracle = process outcome (no panic, abort, signal, hang) "
+            "and the contract clause 'every returned payload was appended to that topic' checked by TLC on the recorded reads. Silent undefined behaviour is outside this technique.",
+            "TLC-enumerated damage cases (WalrusDamage) + process-outcome oracle + TLC trace validation (no foreign payload)", "7 C11"),
+})
+
 DIST_NOTE = ("Shim world: the distributed-walrus/octopii files are compiled unmodified via #[path] against local shim crates (tokio: deterministic executor, bincode: 1.3 layout, "
              "octopii/openraft: traits and data types only); behaviour that depends on the real crates is outside what is explored.")
 
